@@ -109,7 +109,13 @@ func (o *Opaque) String() string { return fmt.Sprintf("<%s#%d>", o.Kind, o.ID) }
 
 // ---- helpers ----
 
-func isSym(v Value) bool { _, ok := v.(*smt.Term); return ok }
+func isSym(v Value) bool {
+	switch v.(type) {
+	case *smt.Term, *SymStr:
+		return true
+	}
+	return false
+}
 
 func isNilPtr(v Value) bool {
 	switch x := v.(type) {
@@ -211,8 +217,6 @@ func toTerm(v Value, t types.Type) *smt.Term {
 		return smt.BVConst(uint64(x), intWidth(t))
 	case float64:
 		return smt.FPConst(x)
-	case string:
-		return smt.StrConst(x)
 	}
 	panic(engineErr("toTerm: unsupported value %T", v))
 }
@@ -228,8 +232,6 @@ func toTermAuto(v Value) *smt.Term {
 		return smt.BVConst(uint64(x), 64)
 	case float64:
 		return smt.FPConst(x)
-	case string:
-		return smt.StrConst(x)
 	}
 	panic(engineErr("toTermAuto: unsupported value %T", v))
 }
@@ -356,6 +358,8 @@ func showValue(v Value) string {
 		return "nil"
 	case *smt.Term:
 		return x.S
+	case *SymStr:
+		return x.String()
 	case string:
 		return fmt.Sprintf("%q", x)
 	case Iface:
